@@ -1,9 +1,19 @@
 """Loop treatment: cut by an inductive invariant (unbounded) or complete unrolling with an unwinding obligation."""
 import ast
 
+import z3
+
 from .values import BreakEx, ContinueEx, PathEnd, Unsupported
 from .sym import Sym, Arr, Obj, DequeV, UserFn, ND
 from .domain import RangeV
+
+
+def _has_quantifier(f, depth=0):
+    if z3.is_quantifier(f):
+        return True
+    if depth > 6 or not z3.is_app(f):
+        return False
+    return any(_has_quantifier(c, depth + 1) for c in f.children())
 
 
 def assigned_names(node):
@@ -91,8 +101,13 @@ class Cut:
         run.reset_pc(run.ghost.get("base_pc", []))
         run.ghost["cut_depth"] = run.ghost.get("cut_depth", 0) + 1
         for lab, f, props in self.inv(interp, env, "assume"):
-            run.assume(f)
-        fp = (name, tuple(sorted((kk, describe(run, vv)) for kk, vv in self._all_vars(env).items())))
+            if z3.is_expr(f) and _has_quantifier(f):
+                run.assume_q(f)
+            else:
+                run.assume(f)
+        live = self.live_names(node, info)
+        fp = (name, tuple(sorted((kk, describe(run, vv)) for kk, vv in self._all_vars(env).items()
+                                 if live is None or kk in live)))
         seen = self.shared.setdefault("cut_seen", set())
         if fp in seen and not run.prefix[len(run.decisions):]:
             # the same generic state was (or is being) explored from another pre-loop path
@@ -103,6 +118,22 @@ class Cut:
 
     def pre_cut(self, interp, env):
         pass
+
+    @staticmethod
+    def live_names(node, info):
+        """Names read by the loop and by the statements that follow it in the function body (the continuation).
+        None when the loop is not a top-level statement of its function (then every variable is kept)."""
+        body = info.node.body
+        for i, st in enumerate(body):
+            if st is node:
+                rest = body[i:]
+                out = set()
+                for st2 in rest:
+                    for x in ast.walk(st2):
+                        if isinstance(x, ast.Name):
+                            out.add(x.id)
+                return out
+        return None
 
     @staticmethod
     def _all_vars(env):
